@@ -26,10 +26,10 @@ theorem IM_of_same {e : Expr} (hs : Same (canon e) e) (hg : isGenMul e = false) 
 theorem IC_of_same {e : Expr} (hs : Same (canon e) e) (hnc : e.isBinConv = false) :
     (firstConv e).isCond = false → ∀ acc,
     ptoks (foldBin .conv acc (canonC e).convR) = convLP acc ++ opToks .conv ++ ptoks e := by
-  intro _ acc
+  intro hfc acc
   rw [convR_single hnc]
   simp only [foldBin]
-  rw [ptoks_conv, hs.2]
+  rw [ptoks_conv _ _ (isCond_of_same hs.1 (not_cond_of_firstConv hfc)), hs.2]
 
 theorem foldBin_bin (op : BinOp) (acc : Expr) : ∀ ys : List Expr, ys ≠ [] → ∃ X y, foldBin op acc ys = .bin op X y := by
   intro ys
@@ -163,13 +163,13 @@ theorem idem_conv {l r : Expr} (hst : (firstConv r).isCond = false) (il : Idem l
   have hs : Same (canon (.bin .conv l r)) (.bin .conv l r) := by
     rw [hcan]
     refine ⟨by rw [cls_foldBin_conv _ _ hne]; simp [cls], ?_⟩
-    rw [ir.IC hst, ptoks_conv, il.same.convLP_eq]
+    rw [ir.IC hst, ptoks_conv _ _ (not_cond_of_firstConv hst), il.same.convLP_eq]
   refine ⟨hs, IA_of_same hs rfl, IM_of_same hs rfl, ?_⟩
   intro hfc acc
   have hfl : (firstConv l).isCond = false := by simpa [firstConv] using hfc
   rw [canonC_conv]
   simp only [foldBin_append]
-  rw [ir.IC hst, convLP_of_cls10 (cls_foldBin_conv _ _ (chains_ne l).2.2), il.IC hfl, ptoks_conv]
+  rw [ir.IC hst, convLP_of_cls10 (cls_foldBin_conv _ _ (chains_ne l).2.2), il.IC hfl, ptoks_conv _ _ (not_cond_of_firstConv hst)]
   have : convLP l = ptoks l := by simp [convLP, firstConv_not_cond hfl]
   rw [this]
   simp [List.append_assoc]
